@@ -64,11 +64,6 @@ theorem d2Known_cases {id : BlkId} {x : Block} (h : AMap.get d2Known id = some x
   repeat' split at h
   all_goals first | (cases h; simp; done) | cases h
 
-/-- no coinbase of the block files has a staking / binding output -/
-theorem d2CbNoDeposit : CbNoDeposit d2Known := by
-  intro id x h
-  rcases d2Known_cases h with rfl | rfl | rfl | rfl | rfl <;> decide
-
 theorem d2KnownS : ∀ x ∈ d2S, AMap.get d2Known x.id = some x := by
   intro x hx
   simp only [d2S, List.mem_cons, List.not_mem_nil, or_false] at hx
@@ -115,7 +110,7 @@ theorem d2ReorgHyp : ReorgHyp d2Ctx d2S where
   validN := d2ValidN
   validS := d2ValidS
   known := d2KnownS
-  disc := disconnectSpec_of (c := d2Ctx) d2CbNoDeposit
+  disc := disconnect_sound
 
 -- ------------------------------------------------------------------ the stored state
 
@@ -265,7 +260,7 @@ theorem d2InvB1 : Inv d2CtxS d2SB1 [d2G, d2B1] ∧ readyWallets d2SB1 ["W1"] = [
 /-- connecting the next block of the node's chain and disconnecting it again: both steps succeed, and
     (`rollback_connect_inv`, `inv_functional`) the mined buckets are restored extensionally -/
 theorem rollback_connect_restores {c : Ctx} {s : Store} {chain rest : List Block} {b : Block}
-    (hcb : CbNoDeposit c.node.known) (hI : Inv c s chain) (hne : chain ≠ [])
+    (hI : Inv c s chain) (hne : chain ≠ [])
     (hnode : c.node.chain = chain ++ b :: rest) (hvalid : ChainValid c.own c.node.chain)
     (hH : HeightsOK c.node.chain) (hknown : AMap.get c.node.known b.id = some b)
     (hAR : AllReady c.own (readyWallets s c.wallets)) (hre : (readyWallets s c.wallets).isEmpty = false) :
@@ -284,9 +279,9 @@ theorem rollback_connect_restores {c : Ctx} {s : Store} {chain rest : List Block
   have hH1 : HeightsOK (chain ++ [b]) := by
     apply heightsOK_prefix (a := chain ++ [b]) (c := rest)
     rw [show chain ++ [b] ++ rest = chain ++ b :: rest by simp, ← hnode]; exact hH
-  obtain ⟨s2, h2, _, _⟩ := disconnectSpec_of hcb s1 chain b hI1 hne hv1 hH1 hknown
+  obtain ⟨s2, h2, _, _⟩ := disconnectSpec_of s1 chain b hI1 hne hv1 hH1 hknown
     (by rw [readyWallets_congr hst]; exact hAR)
-  obtain ⟨hI1', hI2⟩ := rollback_connect_inv hcb hI hne hnode hvalid hH hknown hAR hre h1 h2
+  obtain ⟨hI1', hI2⟩ := rollback_connect_inv hI hne hnode hvalid hH hknown hAR hre h1 h2
   exact ⟨s1, conf, s2, h1, h2, hI1', hI2, inv_functional hI hI2⟩
 
 /-- on the D2 witness, the stored branch: connect `B2` on top of `G – B1`, disconnect it again -/
@@ -297,7 +292,7 @@ theorem d2RollbackB2 :
       AMap.Equiv d2SB1.debits s2.debits ∧ AMap.Equiv d2SB1.game s2.game ∧
       AMap.Equiv d2SB1.txrecs s2.txrecs ∧ AMap.Equiv d2SB1.blocks s2.blocks ∧
       AMap.Equiv d2SB1.sync s2.sync ∧ d2SB1.syncedTo = s2.syncedTo :=
-  rollback_connect_restores (c := d2CtxS) (chain := [d2G, d2B1]) (rest := []) (b := d2B2) d2CbNoDeposit
+  rollback_connect_restores (c := d2CtxS) (chain := [d2G, d2B1]) (rest := []) (b := d2B2)
     d2InvB1.1 (by simp) rfl d2ValidS d2GoodS.heights rfl
     (by show AllReady d2Own (readyWallets d2SB1 ["W1"]); rw [d2InvB1.2]; exact d2AllReady)
     (by show (readyWallets d2SB1 ["W1"]).isEmpty = false; rw [d2InvB1.2]; rfl)
@@ -311,7 +306,7 @@ theorem d2RollbackB2a :
       AMap.Equiv d2SB1.debits s2.debits ∧ AMap.Equiv d2SB1.game s2.game ∧
       AMap.Equiv d2SB1.txrecs s2.txrecs ∧ AMap.Equiv d2SB1.blocks s2.blocks ∧
       AMap.Equiv d2SB1.sync s2.sync ∧ d2SB1.syncedTo = s2.syncedTo :=
-  rollback_connect_restores (c := d2Ctx) (chain := [d2G, d2B1]) (rest := [d2B3a]) (b := d2B2a) d2CbNoDeposit
+  rollback_connect_restores (c := d2Ctx) (chain := [d2G, d2B1]) (rest := [d2B3a]) (b := d2B2a)
     ((inv_ctx_irrel (c := d2CtxS) (c' := d2Ctx) rfl rfl rfl).1 d2InvB1.1) (by simp) rfl d2ValidN
     d2GoodN.heights rfl
     (by show AllReady d2Own (readyWallets d2SB1 ["W1"]); rw [d2InvB1.2]; exact d2AllReady)
